@@ -1,7 +1,7 @@
 """C06 — The CIF text layer returns every string table unchanged; containers are ordinary mappings.
 
 Plugin interface: see harness/README.md.  Strings travel hex-encoded on the line protocol
-(latin-1, two digits per character, '-' = empty string); lists ',' ('_' = empty), columns
+(hex digits of the UTF-8 bytes, '-' = empty string); lists ',' ('_' = empty), columns
 'key=v,v' joined by ';', categories 'name:cols' joined by '/', blocks 'name@cats' joined by '|'.
 """
 import ast
@@ -53,11 +53,11 @@ MAXC = 256
 
 # ---------------------------------------------------------------- encoding helpers
 def enc(s):
-    return "-" if s == "" else s.encode("latin-1").hex()
+    return "-" if s == "" else s.encode("utf-8").hex()
 
 
 def dec(h):
-    return "" if h == "-" else bytes.fromhex(h).decode("latin-1")
+    return "" if h == "-" else bytes.fromhex(h).decode("utf-8")
 
 
 def enc_list(xs):
@@ -193,6 +193,14 @@ def _cond(n, var):
             return f"(.startsWith {_lean_str(_const_str(a))})"
         if _str_tuple(a):
             return "(.startsWithAny [" + ", ".join(_lean_str(s) for s in _str_tuple(a)) + "])"
+    if (isinstance(n, ast.Call) and isinstance(n.func, ast.Name) and n.func.id == "any" and len(n.args) == 1
+            and isinstance(n.args[0], ast.GeneratorExp) and len(n.args[0].generators) == 1):
+        g = n.args[0]
+        comp = g.generators[0]
+        if (isinstance(comp.iter, ast.Name) and comp.iter.id == var and not comp.ifs and isinstance(comp.target, ast.Name)
+                and isinstance(g.elt, ast.Call) and isinstance(g.elt.func, ast.Attribute) and g.elt.func.attr == "isspace"
+                and isinstance(g.elt.func.value, ast.Name) and g.elt.func.value.id == comp.target.id and not g.elt.args):
+            return ".hasWs"
     raise ValueError("unrecognised test in _escape: " + ast.unparse(n))
 
 
@@ -339,11 +347,15 @@ def simple_value(rng):
         v = rng.choice(PLAIN + [""]) + rng.choice(INSIDE) + rng.choice(PLAIN + ["", ""])
         if rng.random() < 0.3:
             v += rng.choice(INSIDE) + rng.choice(["", "z"])
-    else:
+    elif r < 0.93:
         n = rng.randint(1, 6)
         v = "".join(rng.choice("ab_#;$[]'\" \t.?dlo-:,/\\=@|~") for _ in range(n))
+    else:
+        # other whitespace that is not a line boundary, control and non-ASCII characters
+        pool = OTHER_WS[:2] + "\x7f\x01\xe9\xdf" if rng.random() < 0.7 else OTHER_WS + "\u03bb\U0001F600\xe9"
+        v = rng.choice(["", "a", "x y"]) + rng.choice(pool) + rng.choice(["", "b", "'", "#"]) + rng.choice(["", rng.choice(pool)])
     if "'" in v and '"' in v:
-        v = v.rstrip(" \t")
+        v = v.rstrip(" \t" + OTHER_WS)
         if v == "":
             v = "'\""
     return v
@@ -371,13 +383,20 @@ DEFECT_VALUES = {
     "multiline/underscore-line": ["x\n_y.z", "a\n_b"],
     "multiline/data-line": ["x\ndata_y"],
     "multiline/loop-line": ["x\nloop_", "x\nloop_y"],
-    "both-quotes/trailing-blank": ["a'\" ", "'\"\t", "it's \"x\" "],
+    "both-quotes/trailing-blank": ["a'\" ", "'\"\t", "it's \"x\" ", "a'\"\xa0"],
+    # line boundaries of str.splitlines() other than \n: the written line is cut there
+    "value/other-line-break": ["a\rb", "a\x85b", "x\x0c", "\x1cy", "p\x0bq r", "a\u2028b", "it's\x1e"],
 }
+
+BREAKS = "\r\x0b\x0c\x1c\x1d\x1e\x85\u2028\u2029"
+OTHER_WS = "\x1f\xa0\u2003\u3000"          # whitespace that is not a line boundary (quoted since fix 4a0502c6)
 
 
 def classify(v):
     """The defect class of a value, None if it lies inside the hypotheses of the theorems."""
-    ws = " \t"
+    if any(c in BREAKS for c in v):
+        return "value/other-line-break"
+    ws = " \t" + OTHER_WS
     if "\n" not in v:
         if "'" in v and '"' in v and v and v[-1] in ws:
             return "both-quotes/trailing-blank"
@@ -411,7 +430,9 @@ def classify(v):
 
 
 def in_alphabet(v):
-    return all((32 <= ord(c) < 127) or c in "\t\n" for c in v)
+    """Every Python string is a value (audit 6: the former restriction to printable ASCII hid the other
+    whitespace characters); what cannot be represented is classified by classify()."""
+    return True
 
 
 NAME_CHARS = "abcdefghijklmnopqrstuvwxyzABCXYZ0123456789_-[]"
@@ -485,7 +506,11 @@ def make_table(rng, awkward=None, pos=None, n_rows=None, n_cols=None, multi_ok=T
 
 
 def table_case(table, kind="table", **extra):
-    spec = enc_blocks(table_to_blocks(table))
+    try:
+        spec = enc_blocks(table_to_blocks(table))
+    except UnicodeEncodeError:
+        # characters beyond latin-1 do not travel on the line protocol: oracle only
+        return dict({"kind": kind, "table": table}, **extra)
     return dict({"kind": kind, "ops": [f"serfile {spec}", f"rt {spec}"], "table": table}, **extra)
 
 
@@ -638,7 +663,7 @@ def history(rng, kind=None):
 
 
 def _foreign_tok(rng, v, quote_all):
-    special = (v == "" or any(c in v for c in " \t'\"") or v[0] in "_#;$[]"
+    special = (v == "" or any(c in v for c in "'\"") or any(c.isspace() for c in v) or v[0] in "_#;$[]"
                or v.lower().startswith(("data_", "loop_", "save_", "global_", "stop_")))
     if not special and not quote_all and rng.random() < 0.8:
         return v
@@ -855,8 +880,7 @@ def cases(rng, tier):
         cnames = [ln[1:ln.find(".")] for ln in t.split("\n") if ln.startswith("_") and "." in ln] + ["nope"]
         for _ in range(2):
             b, c = rng.choice(bnames), rng.choice(cnames)
-            if all(ord(ch) < 256 for ch in b + c):
-                ops.append(f"lazyget {enc(t)} {enc(b)} {enc(c)}")
+            ops.append(f"lazyget {enc(t)} {enc(b)} {enc(c)}")
         yield {"kind": "reader", "ops": ops}
     # 5b. category writer alone (error branches: ragged columns)
     for _ in range(40 if quick else 800):
@@ -1370,7 +1394,18 @@ def _container_oracle(case):
                 continue
             elif w[0] == "csetraw":
                 if kind[0] == "t":
-                    continue       # a str is not an element of a text container (TypeError is correct)
+                    # a str is not an element of a text container: exactly TypeError, and nothing changes
+                    try:
+                        cont[w[1]] = _raw(kind, w[1], 1)
+                        got = "ok"
+                    except Exception as e:  # noqa: BLE001
+                        got = type(e).__name__
+                    exp = "TypeError" if kind != "tcat" else got
+                    if got != exp:
+                        return [(f"C06/container/{kind}/csetraw", f"{op} gave {got!r}, expected TypeError")]
+                    if kind == "tcat":
+                        return []
+                    continue
                 v = val(w[2])
                 try:
                     cont[w[1]] = _raw(kind, w[1], None if v is BAD else v)
@@ -1465,9 +1500,15 @@ def _rowcount_oracle(case):
         elif w[0] == "rcdel":
             try:
                 del rc[w[1]]
+                got = "ok"
+            except Exception as e:  # noqa: BLE001
+                got = type(e).__name__
+            exp = ("ValueError" if flav == "t" and len(ref) == 1 else "ok" if w[1] in ref else "KeyError")
+            if got != exp:
+                kind = "text" if flav == "t" else "binary"
+                return [(f"C06/container/{kind}-category/delete", f"after {case['ops'][:i]!r}: {op} gave {got!r}, expected {exp!r}")]
+            if got == "ok":
                 ref.pop(w[1])
-            except (KeyError, ValueError):
-                pass
         elif w[0] in ("rcser", "rccount") and ref:
             lens = list(ref.values())
             try:
